@@ -239,6 +239,8 @@ var c04Probes = []struct {
 	{"for-head-use-then-body-let", "var n; for (let i = 0; i < n; i++) { let n = i; (n) }"},
 	{"param-default-use-vs-body-let", "function f(a = x) { x; let x }"},
 	{"param-default-use-vs-body-var", "function f(a = x) { x = 1; var x }"},
+	{"arrow-flag-leak-into-arrow-expression-body", "({} != (() => [b] = 1)); b"},
+	{"arrow-flag-leak-into-class-body", "({} + class { [c] = d; static { e } }); c; d; e"},
 	{"export-specifier-local-name", "var a; export { a }; a"},
 	{"function-declaration-in-block-hoists", "function o() { { function f() {} } return f }"},
 	{"arrow-bare-parameter-uses", "var a; a => a"},
@@ -262,31 +264,33 @@ func c04Probe(t *fw.T) {
 	}
 	got := ast.JSString()
 	want := map[string]string{
-		"hoist-var-through-blocks":               "v1_;\n{\n\t{\n\t\tvar v1_;\n\t}\n}\nv1_;",
-		"let-shadows-in-block":                   "let v1_;\n{\n\tlet v2_;\n\tv2_;\n}\nv1_;",
-		"function-expression-name":               "x = function v1_() {\n\treturn v1_;\n};\nf;",
-		"catch-parameter":                        "try {} catch (v1_) {\n\tv1_;\n}\ne;",
-		"arrow-parameters":                       "(v1_, v2_) => { return v1_ + v2_ };\na;",
-		"parenthesised-not-arrow":                "(a, b);\na;",
-		"for-let-scope":                          "for (let v1_ = 0; v1_ < 1; v1_++) {\n\tv1_;\n}\ni;",
-		"class-static-block-var":                 "let v1_;\nclass v2_ {\n\tstatic {\n\t\tvar v3_;\n\t\tv3_;\n\t}\n}\nv1_;",
-		"param-default-sees-earlier-param":       "function v1_(v2_, v3_ = v2_) {\n\treturn v3_;\n}",
-		"use-before-let":                         "{\n\tv1_;\n\tlet v1_;\n}",
-		"class-expression-self-reference":        "x = class v1_ {\n\tm() {\n\t\treturn v1_;\n\t}\n};",
-		"for-head-shadowed-in-body":              "for (let v1_; ; ) { v2_; let v2_; }",
-		"for-head-use-vs-body-let":               "for (c of x) { v1_; let v1_; }",
-		"arrow-flag-leak-into-nested-body":       "({} + function() { [a]; }); a;",
-		"static-block-var":                       "let v1_; class v2_ { static { var v3_; v3_; } }",
-		"rest-param-default-vs-body-function":    "function v1_(v2_ = y, ...v3_) { function v4_() {} }",
-		"param-default-vs-body-var":              "function v1_(v2_ = y) { var v3_; (v3_) }",
-		"arrow-param-default-vs-body-let":        "x = (v1_ = y, [v2_]) => { let v3_; return [v3_] }",
-		"for-head-use-then-body-let":             "var v1_; for (let v2_ = 0; v2_ < v1_; v2_++) { let v3_ = v2_; (v3_) }",
-		"param-default-use-vs-body-let":          "function v1_(v2_ = x) { v3_; let v3_ }",
-		"param-default-use-vs-body-var":          "function v1_(v2_ = x) { v3_ = 1; var v3_ }",
-		"export-specifier-local-name":            "var v1_; export { v1_ as a }; v1_",
-		"function-declaration-in-block-hoists":   "function v1_() { { function v2_() {} } return v2_ }",
-		"arrow-bare-parameter-uses":              "var v1_; (v2_) => { return v2_ }",
-		"switch-discriminant-outside-case-scope": "let v1_; switch (v1_) { case 1: let v2_; v2_ }",
+		"hoist-var-through-blocks":                   "v1_;\n{\n\t{\n\t\tvar v1_;\n\t}\n}\nv1_;",
+		"let-shadows-in-block":                       "let v1_;\n{\n\tlet v2_;\n\tv2_;\n}\nv1_;",
+		"function-expression-name":                   "x = function v1_() {\n\treturn v1_;\n};\nf;",
+		"catch-parameter":                            "try {} catch (v1_) {\n\tv1_;\n}\ne;",
+		"arrow-parameters":                           "(v1_, v2_) => { return v1_ + v2_ };\na;",
+		"parenthesised-not-arrow":                    "(a, b);\na;",
+		"for-let-scope":                              "for (let v1_ = 0; v1_ < 1; v1_++) {\n\tv1_;\n}\ni;",
+		"class-static-block-var":                     "let v1_;\nclass v2_ {\n\tstatic {\n\t\tvar v3_;\n\t\tv3_;\n\t}\n}\nv1_;",
+		"param-default-sees-earlier-param":           "function v1_(v2_, v3_ = v2_) {\n\treturn v3_;\n}",
+		"use-before-let":                             "{\n\tv1_;\n\tlet v1_;\n}",
+		"class-expression-self-reference":            "x = class v1_ {\n\tm() {\n\t\treturn v1_;\n\t}\n};",
+		"for-head-shadowed-in-body":                  "for (let v1_; ; ) { v2_; let v2_; }",
+		"for-head-use-vs-body-let":                   "for (c of x) { v1_; let v1_; }",
+		"arrow-flag-leak-into-nested-body":           "({} + function() { [a]; }); a;",
+		"static-block-var":                           "let v1_; class v2_ { static { var v3_; v3_; } }",
+		"rest-param-default-vs-body-function":        "function v1_(v2_ = y, ...v3_) { function v4_() {} }",
+		"param-default-vs-body-var":                  "function v1_(v2_ = y) { var v3_; (v3_) }",
+		"arrow-param-default-vs-body-let":            "x = (v1_ = y, [v2_]) => { let v3_; return [v3_] }",
+		"for-head-use-then-body-let":                 "var v1_; for (let v2_ = 0; v2_ < v1_; v2_++) { let v3_ = v2_; (v3_) }",
+		"param-default-use-vs-body-let":              "function v1_(v2_ = x) { v3_; let v3_ }",
+		"param-default-use-vs-body-var":              "function v1_(v2_ = x) { v3_ = 1; var v3_ }",
+		"arrow-flag-leak-into-arrow-expression-body": "({} != (() => { return [b] = 1 })); b",
+		"arrow-flag-leak-into-class-body":            "({} + class { [c] = d; static { e } }); c; d; e",
+		"export-specifier-local-name":                "var v1_; export { v1_ as a }; v1_",
+		"function-declaration-in-block-hoists":       "function v1_() { { function v2_() {} } return v2_ }",
+		"arrow-bare-parameter-uses":                  "var v1_; (v2_) => { return v2_ }",
+		"switch-discriminant-outside-case-scope":     "let v1_; switch (v1_) { case 1: let v2_; v2_ }",
 	}[p.name]
 	if canonNames(normalizeWS(got)) != canonNames(normalizeWS(want)) {
 		t.Failf("after renaming every declared variable the program prints as %q, want %q", got, want)
